@@ -121,8 +121,12 @@ def hx(b):
     return fw.hexs(b)
 
 
-class Violation(Exception):
-    pass
+def _dedupe(xs):
+    out = []
+    for x in xs:
+        if not out or out[-1] != x:
+            out.append(x)
+    return out
 
 
 class Impl:
@@ -153,6 +157,8 @@ class Impl:
         self.eof_fed = False
         self.ends = []                  # sender chunk-end positions (expected-stream coordinates)
         self.unread_used = False
+        self.reported = []              # positions at which readchunk reported True
+        self.chunk_only = True          # every consumer call so far was readchunk / iter_chunks
         self.bad = []                   # (kind, message)
         self.consumed_any = False
         self.returned_bytes = 0
@@ -238,6 +244,18 @@ class Impl:
             data, end = v
             before = self.pos
             self._deliver(data, "readchunk")
+            if end:
+                self.reported.append(self.pos)
+            if self.exact and self.chunk_only and not self.unread_used:
+                # a consumer that only uses readchunk is told every sender chunk end, in order (empty chunks,
+                # i.e. repeated positions, may or may not be reported: compare without repetitions)
+                rep, snd_ = _dedupe([0] + self.reported)[1:], _dedupe([0] + self.ends)[1:]
+                if rep != snd_[:len(rep)]:
+                    self._flag("chunk_boundary", f"readchunk-only consumer was told chunk ends {rep}, the sender's are {snd_}")
+                elif data == b"" and not end and self.eof_fed and rep != snd_:
+                    self._flag("chunk_boundary", f"readchunk-only consumer reached EOF having been told chunk ends {rep} of {snd_}")
+                elif not end and data and any(p <= self.pos for p in snd_[len(rep):] if p in self._ends_before_op):
+                    self._flag("chunk_boundary", f"readchunk-only consumer passed the sender's chunk end {snd_[len(rep)]} unreported (now at {self.pos})")
             if data == b"" and not end:
                 self._eof_indication("readchunk")
             elif self.exact and not self.unread_used:
@@ -252,6 +270,10 @@ class Impl:
             return f"D:c:{hx(data)}:{1 if end else 0}"
         data = v
         self._deliver(data, name)
+        if name in ("u", "il") and data and self.exact:
+            sep = unhex(op[1]) if name == "u" else b"\n"
+            if not data.endswith(sep) and not (self.eof_fed and self.pos == len(self.expected)):
+                self._flag("delimiter", f"readuntil({sep!r}) returned {bytes(data)!r}: not terminated by the separator and not at end of stream")
         if data == b"":
             n = int(op[1]) if name in ("r", "x", "ic") and len(op) > 1 else None
             if name in ("a", "u") or (name == "r" and n is not None and n != 0):
@@ -305,6 +327,8 @@ class Impl:
         op = tok.split(":")
         name = op[0]
         self._ends_before_op = list(self.ends)
+        if name in ("r", "a", "u", "x", "n", "U", "il", "ic", "ia"):
+            self.chunk_only = False
         pos_before = self.pos
         obs = "-"
         try:
